@@ -108,4 +108,119 @@ def fedWith (assets : List (Nat × Bool)) (rates : List Nat) (rank : Nat) (id : 
     if a = id then (if required then rates[rank]? else none)
     else fedWith rest rates (if required then rank + 1 else rank) id
 
+
+/-! ## The chain as a whole: (re)configuration by governance, asset-list changes, genesis
+
+`x/bandoracle/keeper/oracle.go:167-177 AddFetchPriceRecords` (handler of the `FetchPriceProposal`): installs the window
+parameters, re-arms the band side and deletes EVERY stored window. `x/asset/keeper/asset.go:212,278,322`: adding / updating
+an oracle-priced asset re-arms the request/response check (`SetCheckFlag(false)`); the windows are kept. `x/market/genesis.go`:
+`InitGenesis` stores whatever windows the genesis file lists; `x/bandoracle/genesis.go` restores only the check flag, so a
+chain started from genesis has an UNCONFIGURED feed (`lastBlock = 0`, not validated) until the first proposal. -/
+
+/-- `DeleteTwaData` -/
+def Books.erase (bk : Books) (id : Nat) : Books := bk.filter (fun x => x.1 ≠ id)
+
+/-- the delete loop of `AddFetchPriceRecords` over the snapshot `GetAllTwa` took -/
+def deleteKeys (keys : List Nat) (bk : Books) : Books := keys.foldl Books.erase bk
+
+/-- oracle.go:172-175 as written: `for _, data := range allTwa { DeleteTwaData(ctx, data.AssetID) }` (a record is stored
+under its own `AssetID`) -/
+def deleteAllWindows (bk : Books) : Books := deleteKeys (bk.map (·.1)) bk
+
+/-- the COUNTERFACTUAL loop keyed by another id carried by the record (`data.ScriptID`, the same for every record) -/
+def deleteByScript (script : Nat) (bk : Books) : Books := deleteKeys (bk.map (fun _ => script)) bk
+
+/-- asset.go: an asset was added / updated with `IsOraclePriceRequired = oraclePriced` -/
+def Band.assetChange (b : Band) (oraclePriced : Bool) : Band := if oraclePriced then { b with checkFlag := false } else b
+
+structure Chain where
+  cfg : Cfg := { N := 0, acc := 0 }     -- `GetFetchPriceMsg` of an empty store: TwaBatchSize 0, AcceptedHeightDiff 0
+  b   : Band := {}
+  bk  : Books := []
+  deriving Repr
+
+/-- a chain started from a genesis file: any stored windows, any check flag, feed not configured -/
+def Chain.genesis (flag : Bool) (bk : Books) : Chain := { b := { checkFlag := flag }, bk := bk }
+
+inductive ChainOp where
+  | configure (cfg : Cfg) (height : Int)            -- FetchPriceProposal passed at `height`
+  | ack (id : Int)
+  | response (id : Int) (rates : List Nat)
+  | assetChange (oraclePriced : Bool)
+  | band (height : Int)                             -- bandoracle.BeginBlocker
+  | market (height : Int) (assets : List (Nat × Bool))   -- market.BeginBlocker with the asset list of that block
+  deriving Repr
+
+def chainStep (c : Chain) : ChainOp → Except Panic Chain
+  | .configure cfg h => .ok { cfg := cfg, b := c.b.configure h, bk := deleteAllWindows c.bk }
+  | .ack id => .ok { c with b := c.b.ack id }
+  | .response id rates => .ok { c with b := c.b.response id rates }
+  | .assetChange q => .ok { c with b := c.b.assetChange q }
+  | .band h => .ok { c with b := bandBegin c.b h c.cfg.acc }
+  | .market h assets => (marketBegin c.b c.cfg.N c.cfg.acc h assets c.bk).map fun r => { c with b := r.1, bk := r.2 }
+
+def chainRun : Chain → List ChainOp → Except Panic Chain
+  | c, [] => .ok c
+  | c, o :: os => do let c' ← chainStep c o; chainRun c' os
+
+/-- the counterfactual chain: the proposal handler deletes by script id -/
+def chainStepStale (script : Nat) (c : Chain) : ChainOp → Except Panic Chain
+  | .configure cfg h => .ok { cfg := cfg, b := c.b.configure h, bk := deleteByScript script c.bk }
+  | o => chainStep c o
+
+def chainRunStale (script : Nat) : Chain → List ChainOp → Except Panic Chain
+  | c, [] => .ok c
+  | c, o :: os => do let c' ← chainStepStale script c o; chainRunStale script c' os
+
+/-- what the market begin-blocker does to ONE window, as a list of single-window ops -/
+def marketOps (b : Band) (h : Int) (assets : List (Nat × Bool)) (id : Nat) : List Op :=
+  if b.validation then
+    if sampling b h then
+      (if b.discardBool then [Op.discardAll] else []) ++
+        (match b.result b.lastId with
+         | some (r0 :: rs) => (match fedWith assets (r0 :: rs) 0 id with | some rate => [Op.sample rate h] | none => [])
+         | _ => [])
+    else []
+  else if assets.any (fun a => a.1 = id) then [Op.deactivate] else []
+
+/-! ## Consumers of a price (last clause of C17)
+
+Every production reader of a window, by what makes it hand out a value. `listed`: the asset exists in x/asset. -/
+inductive Reader where
+  | calc           -- x/market/keeper/oracle.go CalcAssetPrice (vault, lend, liquidation, auction value assets through it)
+  | latest         -- x/market/keeper/oracle.go GetLatestPrice (no production caller)
+  | vaultRatio     -- x/vault/keeper/vault.go CalculateCollateralizationRatio → CalcAssetPrice (fixed-price debt side)
+  | rewardsOracle  -- x/rewards/keeper/gauge.go OraclePrice: `!found || !price.IsPriceActive ⇒ false`
+  | liqCalc        -- x/liquidity/keeper/rewards.go CalcAssetPrice: `found && twa.Twa > 0`
+  | liqOracle      -- x/liquidity/keeper/rewards.go OraclePrice: refuses only `!IsPriceActive && Twa <= 0`
+  | rewardsPrice   -- x/rewards/keeper/iter.go OraclePriceForRewards: refuses only `!IsPriceActive && Twa <= 0`
+  deriving Repr, DecidableEq
+
+/-- readers that test the activity flag -/
+def Reader.strict : Reader → Bool
+  | .calc | .latest | .vaultRatio | .rewardsOracle => true
+  | _ => false
+
+/-- does the reader hand out a value for this stored window -/
+def Reader.answers (r : Reader) (s : Option Rec) (listed : Bool) : Bool :=
+  match s with
+  | none => false
+  | some w =>
+    match r with
+    | .latest => w.active
+    | .calc | .vaultRatio | .rewardsOracle => listed && w.active
+    | .liqCalc => listed && decide (w.twa > 0)
+    | .liqOracle | .rewardsPrice => listed && (w.active || decide (w.twa > 0))
+
+/-- one chain op seen from the window of asset `id` -/
+def projectOp (id : Nat) (c : Chain) : ChainOp → List COp
+  | .configure cfg _ => [COp.reconfigure cfg]
+  | .market h assets => (marketOps c.b h assets id).map COp.op
+  | _ => []
+
+/-- a chain history seen from the window of asset `id`: its history of samples, bulk operations and reconfigurations -/
+def projectRun (id : Nat) : Chain → List ChainOp → List COp
+  | _, [] => []
+  | c, o :: os => projectOp id c o ++ (match chainStep c o with | .ok c' => projectRun id c' os | .error _ => [])
+
 end Comdex.Feed
